@@ -222,6 +222,8 @@ def main_c03(tier, seed):
                 break
     import large
     nviol += large.sup_large(rep, rng, tier, {"predict_big_batch"})
+    import drive_streams
+    nviol += drive_streams.bigint_matrix_predict(rep, rng, tier)
     rep.extra["oracle_violations"] = nviol
     rep.samples = [it.desc() for _, it in insts[:2]]
     rep.rule = "fitted models as in C01 (+ semi-supervised every 5th), 1-6 queries each: copies of training rows, midpoints, far points, random; non-trivial = n >= 3"
